@@ -39,6 +39,19 @@ class Mixin(Node):
             ]))
         return self
 
+    def param_names(self):
+        """Names of the declared parameters (@a, @b: default, ...)
+        returns:
+            set of str
+        """
+        names = set(['@arguments'])
+        for a in self.args:
+            n = a.tokens[0] if isinstance(a, Variable) else a
+            if isinstance(n, (tuple, list)):
+                n = n[0]
+            names.add(n)
+        return names
+
     def raw(self):
         """Raw mixin name
         returns:
